@@ -25,6 +25,7 @@ import (
 	"fmt"
 	"math/rand"
 	"net/http"
+	"net/http/httptest"
 	"net/url"
 	"sort"
 	"strconv"
@@ -32,6 +33,8 @@ import (
 	"sync/atomic"
 	"testing"
 	"time"
+
+	c18sess "github.com/oauth2-proxy/oauth2-proxy/v7/pkg/apis/sessions"
 )
 
 // ---------------------------------------------------------------------------------------------------------
@@ -87,13 +90,32 @@ func c18Name(class string, k int) string {
 	return []string{"_oauth2_proxy", "my+cookie", "sid"}[k%3]
 }
 
-// factor levels, in this order: secure, httponly, samesite, path, domains, name, store, per-request, reverse-proxy, csrf-expire, expire, skip-button
-var c18Levels = []int{2, 2, 4, 2, 6, 3, 2, 2, 2, 2, 2, 2}
+// factor levels, in this order: secure, httponly, samesite, path, domains, name, store, per-request, reverse-proxy, csrf-expire, expire, skip-button,
+// duplicate-domain (the same --cookie-domain listed twice: validation accepts it, the configured list is a SET for the rule)
+var c18Levels = []int{2, 2, 4, 2, 6, 3, 2, 2, 2, 2, 2, 2, 2}
 
 func c18FromVector(id int, v []int) *c18Cfg {
 	c := &c18Cfg{ID: id, Secure: v[0] == 1, HTTPOnly: v[1] == 0, SameSite: c18SameSites[v[2]], Path: c18Paths[v[3]], DomainSet: c18DomainSets[v[4]].Name,
 		Domains: c18DomainSets[v[4]].Domains, NameClass: c18NameClasses[v[5]], Store: c18Stores[v[6]], CSRFPerRequest: v[7] == 1, ReverseProxy: v[8] == 1,
 		CSRFExpire: []time.Duration{15 * time.Minute, 2 * time.Minute}[v[9]], Expire: []time.Duration{168 * time.Hour, time.Hour}[v[10]], SkipButton: v[11] == 1}
+	if len(v) > 12 && v[12] == 1 && len(c.Domains) > 0 {
+		// repeat the shortest or the longest configured domain, in front or at the end of the list
+		pick := c.Domains[0]
+		for _, d := range c.Domains {
+			if (id%2 == 0 && len(d) < len(pick)) || (id%2 == 1 && len(d) > len(pick)) {
+				pick = d
+			}
+		}
+		if id%4 >= 2 {
+			c.Domains = append([]string{pick}, c.Domains...)
+		} else {
+			c.Domains = append(append([]string{}, c.Domains...), pick)
+		}
+		if id%8 >= 4 {
+			c.Domains = append(c.Domains, pick) // listed three times
+		}
+		c.DomainSet += "+duplicate"
+	}
 	c.Name = c18Name(c.NameClass, id)
 	c.Prefix = "/oauth2"
 	if c.Path != "/" {
@@ -955,6 +977,147 @@ func (f *c18Flow) phase2() {
 
 // ---------------------------------------------------------------------------------------------------------
 
+// ---------------------------------------------------------------------------------------------------------
+// split-threshold boundary sweep: session sizes in the window just below and above the point where the cookie store
+// starts splitting, under configurations whose attributes serialise long. Every emitted line goes through the monitor
+// (<= 4096 bytes on the RAW line, attributes, Domain ...). Driven through the proxy's own SaveSession.
+
+type c18BoundaryCfg struct {
+	Label    string
+	Domain   string
+	Path     string
+	SameSite string
+	Secure   bool
+	HTTPOnly bool
+	Name     string
+}
+
+func c18BoundaryCfgs(thorough bool) []c18BoundaryCfg {
+	longDom := "internal-tools.platform-engineering.emea.corp.example-group.com" // 63 bytes
+	midDom := "internal-tools.corp.example.com"
+	longPath := "/apps/internal-tools/session-gateway/v2/" // 40 bytes
+	midPath := "/apps/internal-tools/"
+	out := []c18BoundaryCfg{
+		{"long-attrs/short-name", longDom, longPath, "strict", true, true, "_oauth2_proxy"},
+		{"long-attrs/name-100", longDom, longPath, "strict", true, true, c18Name("100", 0)},
+		{"long-attrs/name-250", longDom, longPath, "strict", true, true, c18Name("250", 0)},
+		{"mid-attrs/short-name", midDom, midPath, "strict", true, true, "_oauth2_proxy"}, // attributes just over 96 bytes: a narrow window
+		{"long-domain-only", longDom, "/", "lax", true, true, "sid"},
+		{"default-attrs", "", "/", "", true, true, "_oauth2_proxy"}, // attributes well under 96 bytes (control)
+	}
+	if thorough {
+		out = append(out,
+			c18BoundaryCfg{"long-path-only", "", longPath + "deeper/and/deeper/still/", "strict", true, true, "_oauth2_proxy"},
+			c18BoundaryCfg{"long-attrs/no-flags", longDom, longPath, "none", false, false, "my+cookie"},
+			c18BoundaryCfg{"mid-attrs/name-100", midDom, midPath, "strict", true, true, c18Name("100", 0)},
+			c18BoundaryCfg{"mid-attrs/name-250", midDom, midPath, "lax", true, true, c18Name("250", 0)},
+		)
+	}
+	return out
+}
+
+func c18Boundary(run *vfRun, w *vfWorld, t *testing.T) {
+	// one incompressible text; the token of length L is its prefix, so the serialised size is monotone in L
+	const alphabet = "ABCDEFGHIJKLMNOPQRSTUVWXYZabcdefghijklmnopqrstuvwxyz0123456789-_"
+	rng := rand.New(rand.NewSource(run.Env.Seed*131 + 18))
+	stream := make([]byte, 9000)
+	for i := range stream {
+		stream[i] = alphabet[rng.Intn(len(alphabet))]
+	}
+	maxUnsplit := int64(0)
+	for bi, bc := range c18BoundaryCfgs(run.Env.Thorough()) {
+		cfg := &c18Cfg{ID: 100000 + bi, Secure: bc.Secure, HTTPOnly: bc.HTTPOnly, SameSite: bc.SameSite, Path: bc.Path, DomainSet: "boundary:" + bc.Label, Name: bc.Name,
+			NameClass: strconv.Itoa(len(bc.Name)), Store: "cookie", CSRFExpire: 15 * time.Minute, Expire: 168 * time.Hour, Prefix: strings.TrimSuffix(bc.Path, "/") + "/oauth2"}
+		if bc.Domain != "" {
+			cfg.Domains = []string{bc.Domain}
+		}
+		if err := cfg.build(w, "", false); err != nil {
+			t.Fatalf("C18 rig: boundary configuration %s: %v", bc.Label, err)
+		}
+		hosts := []c18Host{{Host: "gateway." + strings.TrimPrefix(bc.Domain, "."), Shape: "sub/split-boundary"}, {Host: "10.1.2.3:8443", Shape: "ip+port/split-boundary"}}
+		if bc.Domain == "" {
+			hosts[0].Host = "gateway.example.com"
+		}
+		type saved struct {
+			lines []string
+			parts int
+			err   error
+		}
+		save := func(h c18Host, L int, judge bool) saved {
+			req := httptest.NewRequest("GET", cfg.Path, nil)
+			req.Host = h.Host
+			rw := httptest.NewRecorder()
+			ss := &c18sess.SessionState{User: "u18-boundary", Email: "boundary@example.com", AccessToken: string(stream[:L])}
+			if err := cfg.P.P.SaveSession(rw, req, ss); err != nil {
+				return saved{err: err}
+			}
+			out := saved{lines: rw.Header().Values("Set-Cookie")}
+			vr := vfNewReq("GET", cfg.Path).WithHost(h.Host)
+			for _, raw := range out.lines {
+				l := c18Parse(raw)
+				if !l.isDeletion() {
+					out.parts++
+				}
+				if judge {
+					_, kind, _ := c18CheckLine(run, cfg, h.Host, h.Shape, fmt.Sprintf("SaveSession(access token of %d incompressible bytes)", L), vr, 0, raw)
+					if kind == "session" {
+						for {
+							m := atomic.LoadInt64(&maxUnsplit)
+							if int64(len(raw)) <= m || atomic.CompareAndSwapInt64(&maxUnsplit, m, int64(len(raw))) {
+								break
+							}
+						}
+					}
+				}
+			}
+			return out
+		}
+		// bisection for the first token length that is split into parts
+		lo, hi := 500, 6000
+		if r := save(hosts[0], lo, false); r.err != nil || r.parts != 1 {
+			t.Fatalf("C18 rig: boundary %s: a %d-byte token gives %d cookies (%v)", bc.Label, lo, r.parts, r.err)
+		}
+		if r := save(hosts[0], hi, false); r.err != nil || r.parts < 2 {
+			t.Fatalf("C18 rig: boundary %s: a %d-byte token gives %d cookies (%v)", bc.Label, hi, r.parts, r.err)
+		}
+		for hi-lo > 1 {
+			mid := (lo + hi) / 2
+			if r := save(hosts[0], mid, false); r.err == nil && r.parts >= 2 {
+				hi = mid
+			} else {
+				lo = mid
+			}
+		}
+		thr := hi
+		run.Count("boundary_configurations", 1)
+		var jobs [][2]int
+		for hiX := range hosts {
+			for L := thr - 160; L <= thr+8; L++ {
+				jobs = append(jobs, [2]int{hiX, L})
+			}
+		}
+		var unsplit, split int64
+		vfParallel(len(jobs), 16, func(i int) {
+			r := save(hosts[jobs[i][0]], jobs[i][1], true)
+			if r.err != nil {
+				run.Inconclusive("boundary save failed")
+				return
+			}
+			run.Count("boundary_saves", 1)
+			if r.parts >= 2 {
+				atomic.AddInt64(&split, 1)
+			} else {
+				atomic.AddInt64(&unsplit, 1)
+			}
+		})
+		if unsplit == 0 || split == 0 {
+			run.Inconclusive("boundary sweep did not straddle the split threshold")
+		}
+		run.Sample(map[string]interface{}{"boundary": bc.Label, "flags": cfg.Flags, "first_split_token_length": thr, "swept": []int{thr - 160, thr + 8}, "unsplit_saves": unsplit, "split_saves": split})
+	}
+	run.Extra("boundary_longest_unsplit_session_line", maxUnsplit)
+}
+
 func c18RefSelfTest(t *testing.T) {
 	type tc struct {
 		domains []string
@@ -974,6 +1137,10 @@ func c18RefSelfTest(t *testing.T) {
 		{[]string{"example.com", ".b.a.example.com", ".a.example.com"}, "a.example.com", "example.com", "longest"},
 		{[]string{"example.com", ".b.a.example.com", ".a.example.com"}, "c.b.a.example.com:8443", "b.a.example.com", "longest"},
 		{[]string{"example.com"}, "[2001:db8::1]:8443", "example.com", "fallback"},
+		{[]string{"example.com", "example.com"}, "127.0.0.1", "example.com", "fallback"},
+		{[]string{"a.example.com", "example.com", "example.com"}, "other.test:8443", "example.com", "fallback"},
+		{[]string{"example.com", "a.example.com", "a.example.com"}, "localhost", "example.com", "fallback"},
+		{[]string{"example.com", "a.example.com", "a.example.com"}, "b.a.example.com", "a.example.com", "longest"},
 	} {
 		got, rule := c18WantDomain(c.domains, c.host)
 		if len(got) != 1 || got[0] != c.want || rule != c.rule {
@@ -993,7 +1160,8 @@ func TestVerif_C18(t *testing.T) {
 	run := vfNewRun(t, "C18", "exploration")
 	run.SetRule("every raw Set-Cookie line of every response of the scenario library (unauthenticated visit, sign-in page, start, failed callbacks, callback success, split session, htpasswd form login, " +
 		"concurrent logins / per-request CSRF, refresh re-issue, tampered-cookie clearing, authorisation-failure clearing on a second instance, sign-out) under cookie-option configurations " +
-		"(covering array in quick: all triples of {secure, httponly, samesite, path, domain set, name length, store} and all pairs with {csrf-per-request, reverse-proxy, csrf-expire, expire, skip-provider-button}; full product of {secure, httponly, samesite, path, domain set, name length, store} in thorough) x request hosts {exact, sub, deep, deeper, unrelated, look-alike, IP} x {no port, port} x {Host, X-Forwarded-Host in reverse-proxy mode, X-Forwarded-Host with reverse-proxy off}. " +
+		"(covering array in quick: all triples of {secure, httponly, samesite, path, domain set, name length, store} and all pairs with {csrf-per-request, reverse-proxy, csrf-expire, expire, skip-provider-button, a cookie domain listed more than once}; full product of {secure, httponly, samesite, path, domain set, name length, store} in thorough) x request hosts {exact, sub, deep, deeper, unrelated, look-alike, IP} x {no port, port} x {Host, X-Forwarded-Host in reverse-proxy mode, X-Forwarded-Host with reverse-proxy off}. " +
+		"plus a split-threshold boundary sweep (SaveSession with every token length in [first split length-160, +8] under configurations with long Domain/Path attributes and long names). " +
 		"cell = (cookie kind, deletion?, attribute vector, domain-rule case, host shape). Domain reading in force: port ignored (fix 09579bc / F8)")
 	run.Assume("the client returns every cookie it was given regardless of Secure/Domain/Path matching (the proxy never sees those attributes on a request); application and proxy paths are placed under --cookie-path",
 		"hosts for which plain-suffix and label-boundary matching disagree (xa.example.com vs a.example.com) accept either reading's Domain",
@@ -1023,6 +1191,8 @@ func TestVerif_C18(t *testing.T) {
 			run.Count("standalone_monitor_flows", 1)
 		}
 	}
+
+	c18Boundary(run, w, t)
 
 	// configurations
 	var vectors [][]int
@@ -1094,7 +1264,7 @@ func TestVerif_C18(t *testing.T) {
 	run.Extra("flows", flows)
 	run.Extra("domain_reading", "port ignored (longest configured domain that is a suffix of the request host without its port)")
 	// the monitor must have seen every kind of cookie it guards
-	need := []string{"lines_csrf", "lines_csrf_deletion", "lines_session", "lines_session_deletion", "lines_split", "lines_split_deletion", "lines_ticket", "lines_ticket_deletion",
+	need := []string{"boundary_saves", "lines_csrf", "lines_csrf_deletion", "lines_session", "lines_session_deletion", "lines_split", "lines_split_deletion", "lines_ticket", "lines_ticket_deletion",
 		"scenario_refresh_reissue", "scenario_refresh_reissue_large", "scenario_load_error_clearing", "scenario_authorisation_failure_clearing", "scenario_sign_out", "scenario_sign_out_large",
 		"scenario_htpasswd_login", "scenario_relogin_expires_stale_parts", "domain_rule_longest", "domain_rule_fallback", "domain_rule_none", "deletions_matching_held_cookie"}
 	for _, k := range need {
